@@ -298,6 +298,11 @@ def eval_rvalue(fr, rv, ctx):
         return ('disc', v)
     m = re.fullmatch(r'(.*) as .* \(PointerCoercion.*\)', rv)
     if m: return eval_operand(fr, m.group(1), ctx)
+    m = re.fullmatch(r'(.*) as (\*const|\*mut) .* \((Transmute|PtrToPtr)\)', rv)
+    if m:      # pointer-to-pointer casts keep the reference (Box internals: NonNull -> *const)
+        v = eval_operand(fr, m.group(1), ctx)
+        if isinstance(v, Ref): return v
+        raise NotEncodable('pointer cast of a non-reference: ' + rv[:80])
     m = re.fullmatch(r'(?:std::option::)?Option::<.*>::Some\((.*)\)', rv)
     if m: return Enum('Some', [eval_operand(fr, m.group(1), ctx)])
     if re.fullmatch(r'(std::option::)?Option::<.*>::None', rv): return Enum('None', [])
@@ -408,6 +413,12 @@ def eval_rvalue(fr, rv, ctx):
         parts = split_top(rv[1:-1])
         if len(parts) > 1 or rv.endswith(',)'):
             return Struct([eval_operand(fr, o, ctx) for o in parts])
+    mv = re.fullmatch(r"((?:[A-Za-z_]\w*::)*[A-Z]\w*)::<.*>::([A-Z]\w*)\((.*)\)", rv)
+    if mv and not rv.startswith(('move ', 'copy ', 'const ')) and rv.index('(') > rv.index('>::'):    # Enum::<generics>::Variant(fields)
+        e = Enum(mv.group(2), [eval_operand(fr, o, ctx) for o in split_top(mv.group(3))])
+        ev = enum_variant_of(mv.group(1) + '::' + mv.group(2))
+        if ev: e.idx = ev[1]
+        return e
     m = re.fullmatch(r"((?:[A-Za-z_]\w*::)*[A-Z]\w*)(::<.*?>)?\((.*)\)", rv)
     if m and not rv.startswith(('move ', 'copy ', 'const ')) and ('::' in m.group(1) or m.group(2) or m.group(1) not in MIR_OPS):   # tuple-struct constructor (always printed with a path or generics)
         st = Struct([eval_operand(fr, o, ctx) for o in split_top(m.group(3))])
@@ -798,6 +809,17 @@ def call(fr, callee, args, ctx):
         res = Extract(w - 1, 0, wide)
         if ctx.branch(ZeroExt(w, res) != wide): raise NotEncodable('reachable panic: arithmetic overflow in ' + c)
         return res
+    msv_ = re.fullmatch(r'(?:smallvec::)?SmallVec::<\[.*; (\d+)\]>::(inline_size|from_vec|new)', c)
+    if msv_ and msv_.group(2) == 'inline_size': return int(msv_.group(1))
+    if msv_ and msv_.group(2) == 'from_vec': return VecV(list(_d(args[0]).items))
+    if re.fullmatch(r'Box::<\[.*; \d+\]>::new_uninit', c):
+        # Box<MaybeUninit<[T; N]>> as the MIR sees it: Box{0: Unique{0: NonNull -> MaybeUninit{1: ManuallyDrop{0: MaybeDangling{0: [T; N]}}}}}
+        mu = Struct([None, Struct([Struct([None])])])
+        return Struct([Struct([Ref(Cell(mu))])])
+    if re.fullmatch(r'std::boxed::box_assume_init_into_vec_unsafe::<.*>', c):
+        mu = _d(_d(args[0]).f[0].f[0])
+        arr = mu.f[1].f[0].f[0]
+        return VecV(list(arr.f))
     mr_ = re.fullmatch(r'(?:std::result::)?Result::<.*>::(unwrap|expect|ok|is_ok|is_err|unwrap_or)(?:::<.*>)?', c)
     if mr_ and isinstance(_d(args[0]), Enum) and _d(args[0]).variant in ('Ok', 'Err'):
         r_ = _d(args[0]); k_ = mr_.group(1)
